@@ -23,6 +23,9 @@ func (r *DescribeGroupsResponse) decode(pd packetDecoder, version int16) (err er
 	if err != nil {
 		return err
 	}
+	if n < 0 {
+		return errInvalidArrayLength
+	}
 
 	r.Groups = make([]*GroupDescription, n)
 	for i := 0; i < n; i++ {
